@@ -74,4 +74,45 @@ def judgeCrashAck (every : Bool) (ws : List WRec) (syncDone : List Nat) (synced 
     (r1 r2 r3 : List (Option Nat)) : Option String :=
   judgeCrash ws (max synced (ackBound every ws syncDone)) r1 r2 r3
 
+/-! ### sequences of crashes
+
+After a crash the recovered contents are the durable baseline of what follows: every value read after
+`crash(); recover_from_crash()` is either still in the surviving log or in an SSTable.  A later phase is
+judged like a single-crash run whose history starts with one completed, durable write per key of the
+baseline (`baselineRecs`: sequence number 0, finished before the phase's first segment), followed by the
+phase's own writes.  Values of earlier phases that are not in the baseline were lost or overwritten before
+the previous crash; if one of them is read after a later crash it has been resurrected. -/
+
+/-- identifier space of the synthetic baseline writes (operation ids of a case are far below) -/
+def baselineId (k : Key) : Nat := 900000 + k
+
+def baselineRecs (base : List (Option Nat)) : List WRec :=
+  base.zipIdx.filterMap fun (x, k) => x.map fun v => ⟨baselineId k, k, some v, 0, 0, some 0⟩
+
+/-- one phase: `base` = reads after the previous crash cycle (all `none` for the first phase),
+    `stale` = values written in earlier phases -/
+def judgePhase (every : Bool) (base : List (Option Nat)) (stale : List Nat) (ws : List WRec) (syncDone : List Nat)
+    (synced : Nat) (r1 r2 r3 : List (Option Nat)) : Option String :=
+  match r1.zipIdx.find? fun (x, k) => match x with
+      | some v => !(ws.any fun w => w.cell == some v) && base.getD k none != some v && stale.contains v
+      | none => false with
+  | some (_, k) => some s!"wal/no-resurrection/value-of-an-earlier-phase-back key {k}"
+  | none => judgeCrashAck every (baselineRecs base ++ ws) syncDone synced r1 r2 r3
+
+structure PhaseObs where
+  ws : List WRec
+  syncDone : List Nat
+  synced : Nat
+  r1 : List (Option Nat)
+  r2 : List (Option Nat)
+  r3 : List (Option Nat)
+
+def judgePhases (every : Bool) (nkeys : Nat) : List (Option Nat) → List Nat → Nat → List PhaseObs → Option String
+  | _, _, _, [] => none
+  | base, stale, i, p :: rest =>
+    if p.r1.length != nkeys then some "wal/malformed-judge-input" else
+    match judgePhase every base stale p.ws p.syncDone p.synced p.r1 p.r2 p.r3 with
+    | some sig => some s!"{sig} crash {i}"
+    | none => judgePhases every nkeys p.r3 (stale ++ p.ws.filterMap (·.cell)) (i + 1) rest
+
 end HappyModel.C15
